@@ -6,7 +6,11 @@ import (
 	"context"
 	"time"
 
+	"github.com/marekgalovic/anndb/index"
 	pb "github.com/marekgalovic/anndb/protobuf"
+	"github.com/marekgalovic/anndb/storage"
+
+	uuid "github.com/satori/go.uuid"
 
 	"github.com/marekgalovic/anndb/verifrt"
 )
@@ -251,6 +255,69 @@ func VerifC14Crash() {
 			}
 		}
 	}
+	// items=N (one member): items are written into the surviving dataset through the real
+	// Dataset.Insert / Remove (partition group = real etcd/raft, its log in the same store):
+	// an answered write is part of the acknowledged history (C03 at the level of a whole Server)
+	nItems := verifrt.Bound("items", 0)
+	itemState := map[int]int{} // 1 acknowledged present, 2 acknowledged removed, 3 unknown
+	var itemDs []byte
+	itemDim := 0
+	if nItems > 0 && members == 1 && !down() {
+		for k, id := range created {
+			if want[string(id)] {
+				itemDs, itemDim = id, 2+k
+			}
+		}
+	}
+	itemId := func(i int) uuid.UUID {
+		var u uuid.UUID
+		u[0], u[15] = byte(0x41+i), 0x77
+		return u
+	}
+	itemVec := func(i int) []float32 {
+		v := make([]float32, itemDim)
+		v[0] = float32(3*i + 1)
+		return v
+	}
+	if itemDs != nil {
+		dsId, _ := uuidFromBytes(itemDs)
+		for i := 0; i < nItems && !down(); i++ {
+			ds, gerr := live[1].datasetManager.Get(dsId)
+			if gerr != nil {
+				break
+			}
+			i := i
+			err, answered := async(1, func() error { return ds.Insert(ctx, itemId(i), itemVec(i), nil) }, 80)
+			if answered && err == nil {
+				itemState[i] = 1
+			} else {
+				itemState[i] = 3
+				verifrt.Tag("insert-not-acknowledged")
+				continue
+			}
+			if !down() {
+				tick(2)
+			}
+			if !down() && verifrt.Bound("compactitems", 0) == 1 && verifrt.Choose("compact-partition-log", 2) == 1 {
+				// the partition group compacts its log into a local snapshot (a crash may hit that too)
+				dm := live[1].datasetManager
+				async(1, func() error { _, e := storage.VerifCompactPartitions(dm); return e }, 20)
+				verifrt.Tag("partition-log-compacted")
+			}
+			if i == 0 && !down() && verifrt.Choose("remove-first-item", 2) == 1 {
+				err, answered := async(1, func() error { return ds.Remove(ctx, itemId(0)) }, 80)
+				if answered && err == nil {
+					itemState[0] = 2
+				} else {
+					itemState[0] = 3
+					verifrt.Tag("remove-not-acknowledged")
+				}
+				if !down() {
+					tick(2)
+				}
+			}
+		}
+	}
 	armed = false
 	verifrt.Reach("written")
 	if down() {
@@ -324,6 +391,58 @@ func VerifC14Crash() {
 	verifrt.Assert(ok, "after-a-crash-and-restart-every-member-lists-every-acknowledged-create-no-acknowledged-delete-and-all-members")
 	if !ok {
 		return
+	}
+	if itemDs != nil {
+		dsId, _ := uuidFromBytes(itemDs)
+		itemsOk := false
+		for k := 0; k < 60 && !itemsOk; k++ {
+			tick(1)
+			ds, gerr := live[1].datasetManager.Get(dsId)
+			if gerr != nil {
+				continue
+			}
+			var res index.SearchResult
+			serr, answered := async(1, func() error {
+				var e error
+				// (Dataset.Search fans out over gRPC even to the local node; the partitions are searched directly)
+				var pids []uuid.UUID
+				for _, p := range ds.Meta().GetPartitions() {
+					pid, _ := uuidFromBytes(p.GetId())
+					pids = append(pids, pid)
+				}
+				res, e = ds.SearchPartitions(ctx, pids, itemVec(0), uint(nItems+1))
+				return e
+			}, 20)
+			if !answered || serr != nil {
+				continue
+			}
+			found := map[int]bool{}
+			extra := false
+			for _, it := range res {
+				hit := false
+				for i := 0; i < nItems; i++ {
+					if uuid.Equal(it.Id, itemId(i)) {
+						found[i], hit = true, true
+					}
+				}
+				if !hit {
+					extra = true
+				}
+			}
+			itemsOk = !extra
+			for i := 0; i < nItems; i++ {
+				switch itemState[i] {
+				case 0:
+					itemsOk = itemsOk && !found[i]
+				case 1:
+					itemsOk = itemsOk && found[i]
+				case 2:
+					itemsOk = itemsOk && !found[i]
+				}
+			}
+		}
+		verifrt.Assert(itemsOk, "after-a-crash-and-restart-the-dataset-holds-exactly-the-acknowledged-items")
+		verifrt.Reach("items-checked")
 	}
 	// the node keeps serving: one more create goes through
 	served := false
